@@ -91,6 +91,9 @@ func NewQuery(sql string) (*Command, error) {
 }
 
 func QuoteString(str string) string {
+	// the parser this library uses reads backslash escapes inside string
+	// literals (\' \n \\ ...), so a backslash has to be escaped as well
+	str = strings.ReplaceAll(str, "\\", "\\\\")
 	return "'" + strings.ReplaceAll(str, "'", "''") + "'"
 }
 
